@@ -55,6 +55,18 @@ def generate(rng, tier):
         pl = G.py_payload(m, v)
         for cut in range(len(pl) + 1):
             add(G.to_uri(pl[:cut]), f"trunc:v{v}")
+    # the same for manifests in which every optional section is populated (metadata, discovery hints, attestation, two or
+    # three fallback hints), at all three base64 alignments: a read one byte past the decoded payload is only visible to the
+    # sanitizer when the decoded length is a multiple of 3 (no spare capacity), so the tail is shifted by 0, 1 and 2 bytes
+    for v in [3, 4]:
+        m = small_manifest(rng)
+        while len(m["fallbacks"]) < 2 or not m["hints"] or not m["meta"]:
+            m = small_manifest(rng)
+        for pad in range(3):
+            m2 = dict(m); m2["advisory"] = list(m["advisory"]) + [120] * pad
+            pl = G.py_payload(m2, v)
+            for cut in range(85, len(pl) + 1):
+                add(G.to_uri(pl[:cut]), f"trunc-full:v{v}")
     m = small_manifest(rng)
     pl = G.py_payload(m, 4)
     for vb in (range(256) if tier != "quick" else [0, 1, 2, 3, 4, 5, 6, 127, 255]):
